@@ -130,7 +130,14 @@ def allowedCompiledMutable : List String :=
   ["BitSerializer::Convert::Detail::EnumRegistry::mBeginIt", "BitSerializer::Convert::Detail::EnumRegistry::mEndIt",
    "BitSerializer::Convert::Detail::EnumRegistry::Register()::descriptors_", "BitSerializer::DefaultOptions"]
 
-theorem compiled_mutable_safe : compiledMutable.all (fun s => allowedCompiledMutable.contains s.1) = true := by
+/-- a symbol in a writable section is harmless when it is one of the write-once registries, or when the source
+    inventory says it is a `const` object (dynamically initialised once — function-local statics under the C++11
+    guard — and never written again) -/
+def SafeCompiled (s : String × String) : Bool :=
+  allowedCompiledMutable.contains s.1 ||
+  statics.any (fun t => t.1 == s.1 && (t.2.1 == "const" || t.2.1 == "constexpr"))
+
+theorem compiled_mutable_safe : compiledMutable.all SafeCompiled = true := by
   decide
 
 /-! #### non-vacuity: a two-thread system satisfying all hypotheses -/
